@@ -21,8 +21,27 @@ class E(Exception):
     def __init__(self, n): Exception.__init__(self, n); self.n = n
 
 
+class EV(E, ValueError): pass
+class EK(E, KeyError): pass
+class EO(E, OSError): pass
+class EA(E, AssertionError): pass
+class ER(E, RuntimeError): pass
+class BE(BaseException): pass                       # a user exception class that is not an Exception
+
+EXC_CLASSES = [E, EV, EK, EO, EA, ER]               # what `raise n` raises (all are E, so all count as "E<n>")
+BASE_CLASSES = [SystemExit, KeyboardInterrupt, GeneratorExit, BE]     # what `braise c` raises: BaseException, not Exception
+OWN_EXC_NAMES = set(c.__name__ for c in EXC_CLASSES) | {"RuntimeError", "StopIteration"}
+BASE_EXC_NAMES = set(c.__name__ for c in BASE_CLASSES)
+
+
 def exc_name(e):
     return "E%d" % e.n if isinstance(e, E) else type(e).__name__
+
+
+def raised_class(conv, tid, idx, base=None):
+    """the class a step raises: one of the Exception subclasses (picked by the convention seed) or the BaseException class `base`"""
+    if base is not None: return BASE_CLASSES[base % len(BASE_CLASSES)]
+    return EXC_CLASSES[(conv + tid + idx) % len(EXC_CLASSES)] if conv else E
 
 
 class VFd(object):
@@ -74,6 +93,10 @@ class Run(object):
         self.cb_bad = None          # a timer callback was called with the wrong arguments
         self.cbcancel = []          # [position in trace, timer index]: cancel() called from inside a timer callback
         self.ntop = len(case["tasks"])
+        self.tstarts = []           # [position in trace, timer index, time]: a deferred timer was started by a task
+        self.tstarted = {}          # timer index -> True once start() has been called
+        self.cancelled = {}         # timer index -> True once a task has called cancel()
+        self.threaded = False
 
     def now(self):
         u = self.clock.now * UNIT
@@ -131,8 +154,10 @@ class Run(object):
 
     def badop(self):
         rc = self.rc
+        k = self.conv % (len(EXC_CLASSES) + len(BASE_CLASSES)) if self.conv else 0
+        cls = EXC_CLASSES[k] if k < len(EXC_CLASSES) else BASE_CLASSES[k - len(EXC_CLASSES)]
         class _Bad(rc.BlockingOperation, BadOp):
-            def execute(op, task, scheduler): raise E(9)
+            def execute(op, task, scheduler): raise cls(9)
         return _Bad()
 
     # ---- generators
@@ -225,6 +250,21 @@ class Run(object):
         if tag == "cancel":
             self.timers[y[1]].cancel()
             self.timer_due[y[1]] = None
+            self.cancelled[y[1]] = True
+            return 0, None
+        if tag == "tstart":                                          # start a deferred timer (a no-op for a timer that is running already)
+            j = y[1]; spec = self.case["timers"][j]
+            if len(spec) > 4 and spec[4] and not self.tstarted.get(j):
+                self.tstarted[j] = True
+                tm = self.timers[j]; c = pick(3)
+                cancelled = any(k == j for _, k in self.cbcancel) or self.cancelled.get(j)
+                self.tstarts.append([len(self.trace), j, now])
+                if not cancelled:
+                    self.timer_due[j] = max(now, self.case["t0"] + spec[0]) if spec[4] == "abs" else now + spec[0]
+                if self.threaded: tm.start(scheduler=self.sched, fast=True)
+                elif c == 0: tm.start(self.sched)
+                elif c == 1: tm.start(scheduler=self.sched)
+                else: tm.start(scheduler=self.sched, fast=True)
             return 0, None
         raise ValueError(tag)
 
@@ -244,7 +284,8 @@ class Run(object):
                 if uncaught is not None: raise uncaught
                 if i == len(prog): return
                 y = prog[i]
-                if y[0] == "raise": raise E(y[1])
+                if y[0] == "raise": raise raised_class(self.conv, tid, i)(y[1])
+                if y[0] == "braise": raise raised_class(self.conv, tid, i, y[1])(y[1])
                 val, wake = self.build(y, tid)
                 if wake is not None and wake[0] == "send": wake = ("send", wake[1])
                 elif wake is not None and (y[0] != "num" or tid < self.ntop): self.pending[tid] = wake[0]     # `yield n` in a sub-task is its result
@@ -272,7 +313,8 @@ class Run(object):
         """Timer j of the case, constructed in one of the forms the class accepts (positional / keyword arguments, relative /
         absolute time for a one-shot timer, started at once or later, with callback arguments)"""
         rc = self.rc; H = self
-        delay, recurring, selfstop, false_at = spec
+        delay, recurring, selfstop, false_at = spec[:4]
+        defer = spec[4] if len(spec) > 4 else None               # "rel" / "abs": constructed with started=False, started later by `tstart j`
         tid = self.ntids; self.ntids += 1
         st = {"n": 0}
         c = (self.conv + j) % 6 if self.conv else 0
@@ -285,11 +327,23 @@ class Run(object):
             stop = false_at == n
             H.timer_due[j] = None if (not recurring or (selfstop and stop)) else H.now() + delay
             for a_ in acts:
-                if a_[1] == n:                                   # [j, n, "cancel", k]: the callback cancels timer k (possibly itself)
+                if a_[1] == n and a_[2] == "cancel":             # [j, n, "cancel", k]: the callback cancels timer k (possibly itself)
                     H.timers[a_[3]].cancel(); H.timer_due[a_[3]] = None
                     H.cbcancel.append([len(H.trace), a_[3]])
+            for a_ in acts:
+                if a_[1] == n and a_[2] == "raise":              # [j, n, "raise", c]: the callback raises (class c): only this timer dies
+                    H.timer_due[j] = None
+                    k_ = a_[3] % (len(EXC_CLASSES) + len(BASE_CLASSES))
+                    raise (EXC_CLASSES[k_] if k_ < len(EXC_CLASSES) else BASE_CLASSES[k_ - len(EXC_CLASSES)])(7)
             return False if stop else H.NOT_FALSE[(H.conv + n + j) % len(H.NOT_FALSE)] if H.conv else None
         d = delay / UNIT
+        self.threaded = threaded
+        if defer:
+            if defer == "abs": tm = rc.Timer(self.clock.now + d, cb, absoluteTime=True, selfStoppable=selfstop, started=False, args=args, kw=kw)
+            elif c % 2: tm = rc.Timer(d, cb, False, recurring, args, kw, None, False, selfstop)
+            else: tm = rc.Timer(d, cb, recurring=recurring, selfStoppable=selfstop, started=False, args=args, kw=kw)
+            self.tid_of[id(tm)] = tid; self.timers.append(tm); self.timer_due.append(None)
+            return
         if threaded:
             tm = rc.Timer(d, cb, recurring=recurring, selfStoppable=selfstop, scheduler=sched, started=False, args=args, kw=kw)
             tm.start(scheduler=sched, fast=True)
@@ -369,7 +423,7 @@ class Run(object):
         try:
             with contextlib.redirect_stdout(out), contextlib.redirect_stderr(out):
                 sched.run()
-        except Exception as e:
+        except BaseException as e:                                  # whatever leaves Scheduler.run() is an observable, never a harness failure
             run_exc = type(e).__name__
         quit_ = sched._hasQuit if st["quit"] is None else st["quit"]
         tid = self.tid
@@ -380,7 +434,7 @@ class Run(object):
                "now": self.now(), "ready": [tid(t) for t in sched._ready], "incoming": [tid(e[0]) for e in list(hub._incoming.queue)],
                "hub": [tid(t) for t in hub._tasks], "subs": self.subs, "overlap": self.overlap, "run_exc": run_exc,
                "descheduled": text.count("de-scheduled"), "excs": excs, "queued_run": self.queued_run,
-               "overslept": self.overslept, "cb_bad": self.cb_bad, "cbcancel": self.cbcancel}
+               "overslept": self.overslept, "cb_bad": self.cb_bad, "cbcancel": self.cbcancel, "tstarts": self.tstarts}
         # release the pinger pipe now (its __del__ would otherwise close recycled descriptor numbers later)
         p = hub._pinger
         for a in ("_r", "_w"):
@@ -532,7 +586,7 @@ class ThreadedRun(Run):
                    "hub": [self.tid(t) for t in hub._tasks], "subs": self.subs, "overlap": self.overlap,
                    "run_exc": run_exc if run_exc else ("deadlock" if status == "deadlock" else None),
                    "descheduled": text.count("de-scheduled"), "excs": excs, "status": status, "steps": ctl.steps,
-                   "queued_run": self.queued_run, "overslept": None, "cb_bad": self.cb_bad, "cbcancel": self.cbcancel}
+                   "queued_run": self.queued_run, "overslept": None, "cb_bad": self.cb_bad, "cbcancel": self.cbcancel, "tstarts": self.tstarts}
             if status == "deadlock": obs["crashed"] = True
         finally:
             redir.close()
@@ -564,7 +618,7 @@ RAISE = ["raise", 1]
 SEL_T = ["select", [], [], [], 4]                 # pure timeout
 SEL_R0 = ["select", [0], [], [], 12]              # fd 0 (readable from T0+6) with timeout
 SEL_R1 = ["select", [1], None, None, None]        # fd 1: never ready, no timeout -> blocks for ever
-SUBS = [[["num", 3]], [SLEEP4], [], [["raise", 2]], [SLEEP4, ["num", 5]]]
+SUBS = [[["num", 3]], [SLEEP4], [], [["raise", 2]], [SLEEP4, ["num", 5]], [["braise", 1]], [SLEEP4, ["braise", 3]]]
 BADOP = ["badop"]
 CANARY = mk([[SLEEP4, ["select", [0], [1], [], 12], ["again", 2, True], NUM0], [["select", [1], [], [], 4], ["recv", 0, 8]], [SLEEP0, ["num", 0]]],
             [0, 1, 0], [[5, True, True, 1], [5, False, True, None]], r=[T0 + 6, None], w=[None, T0 + 6], x=[None, None], label="canary")
@@ -592,6 +646,7 @@ def rand_yield(rng, nsub_from, nprogs, ntimers, nfds, t0):
     if r < 0.76: return ["send", rng.randrange(nfds), rng.choice([1, 3, 4, 8, 10, 16]), opt(), rng.choice([2, 4, 16])]
     if r < 0.77: return ["exit"]
     if r < 0.78: return ["badop"]
+    if r < 0.795: return ["braise", rng.randrange(4)]
     if r < 0.82: return ["raise", rng.randint(1, 3)]
     if r < 0.95 and nsub_from < nprogs: return ["again", rng.randrange(nsub_from, nprogs), rng.random() < 0.7]
     if ntimers: return ["cancel", rng.randrange(ntimers)]
@@ -619,8 +674,16 @@ def rand_case(rng, ntasks=None, maxlen=12):
         c["prios"] = [rng.choice([0, 1, 2, 4, 6, 7]) if (lo or rng.random() < 0.5) else rng.choice([8, 8, 12]) for _ in range(ntop)]
         c["draws"] = [rng.choice([0, 1, 3, 5, 7, 8, 8, 8, 8]) for _ in range(rng.choice([0, 4, 12, 30]))]
     c["conv"] = rng.randrange(1, 1 << 20) if rng.random() < 0.8 else 0
-    if ntimers and rng.random() < 0.08:                           # callbacks that cancel a timer (possibly their own): judged by the oracle alone
-        c["cbacts"] = [[rng.randrange(ntimers), rng.choice([0, 0, 1, 2]), "cancel", rng.randrange(ntimers)] for _ in range(rng.choice([1, 1, 2]))]
+    if ntimers and rng.random() < 0.08:                           # callbacks that cancel a timer (possibly their own) or raise: judged by the oracle alone
+        c["cbacts"] = [([rng.randrange(ntimers), rng.choice([0, 0, 1, 2]), "cancel", rng.randrange(ntimers)] if rng.random() < 0.6 else
+                        [rng.randrange(ntimers), rng.choice([0, 0, 1]), "raise", rng.randrange(10)]) for _ in range(rng.choice([1, 1, 2]))]
+    if ntimers and rng.random() < 0.15:                           # timers built with started=False and started later by a task (oracle alone)
+        for j, t in enumerate(c["timers"]):
+            if rng.random() < 0.7:
+                kind = "rel" if (t[1] or rng.random() < 0.6) else "abs"
+                t.append(kind)
+                for _ in range(rng.choice([1, 1, 2])):              # somebody starts it, at some point of some top-level program
+                    k = rng.randrange(ntop); c["progs"][k].insert(rng.randint(0, len(c["progs"][k])), ["tstart", j])
     return c
 
 
@@ -691,6 +754,22 @@ def hand_cases():
         yield mk([[["select", [0], [2], [], 0], ["select", [0], [2], [], 4], ["select", [1], [2], [0], 4]], [SLEEP4, ["select", [0], [], [], 0]]], [0, 1, 0],
                  [[4, False, True, None]], r=[T0, T0 + 4], w=[None, None, T0 + 4], x=[T0 + 8], label="expired and ready in one sweep", conv=cv)
         yield mk([[SLEEP4, BADOP, NUM0], [["again", 2, True], NUM0], [SLEEP0, BADOP]], [0, 1, 0], label="operation that raises", conv=cv)
+    # exceptions that are not Exceptions (SystemExit, KeyboardInterrupt, GeneratorExit, a user BaseException): in a task, a sub-task, an operation
+    for b in range(4):
+        P = [[NUM0, ["braise", b], NUM0], [NUM0, NUM0, SLEEP4, NUM0], [["again", 3, True], NUM0], [SLEEP0, ["braise", b]], [SLEEP4, BADOP, NUM0]]
+        yield mk(P, [0, 1, 2, 1, 4], [[4, True, True, 2]], label="BaseException in a task, a sub-task, an operation", conv=b * 3, budget=80)
+        c = mk([[SLEEP4, ["sleep", 8], ["sleep", 40]]], [0, 0], [[4, True, True, None], [6, False, True, None]], label="callback raises", budget=80)
+        c["cbacts"] = [[0, 1, "raise", 6 + b], [1, 0, "raise", b]]
+        yield c
+    # timers built with started=False and started later (after the clock has moved), cancelled before / after start(), absolute deadlines
+    for cv in (0, 1, 2, 5):
+        yield mk([[["sleep", 8], ["tstart", 0], ["tstart", 1], ["tstart", 2], ["sleep", 40], ["cancel", 1]]], [0],
+                 [[5, False, True, None, "rel"], [3, True, True, None, "rel"], [0, False, True, None, "rel"]], label="deferred timers", conv=cv, budget=120)
+        yield mk([[["sleep", 8], ["cancel", 0], ["tstart", 0], ["tstart", 1], ["num", 4], ["cancel", 1], ["tstart", 2], ["tstart", 2], ["sleep", 24]]], [0],
+                 [[5, False, True, None, "rel"], [8, True, False, 0, "rel"], [4, True, True, 1, "rel"]], label="deferred timers: cancel before and after start", conv=cv, budget=120)
+        yield mk([[["sleep", 8], ["tstart", 0], ["tstart", 1], ["sleep", 24]], [["sleep", 16], ["tstart", 2]]], [0, 1],
+                 [[4, False, True, None, "abs"], [12, False, True, None, "abs"], [16, False, False, 0, "abs"], [6, True, True, 2]],
+                 label="deferred timers: absolute deadlines", conv=cv, budget=120)
     # timer callbacks that cancel timers, their own included
     for acts in ([[0, 0, "cancel", 0]], [[0, 1, "cancel", 1]], [[1, 0, "cancel", 0]], [[0, 0, "cancel", 1], [1, 0, "cancel", 0]], [[0, 2, "cancel", 0], [0, 2, "cancel", 1]]):
         for tm in ([[4, True, True, None], [4, True, False, None]], [[4, True, False, 1], [6, False, True, None]]):
@@ -981,6 +1060,14 @@ class C06(Check):
         for i, c in enumerate(scope(sweep, 2, 2, timers=[], label="sweep: expired and ready")):                     # 21^2
             c["r"], c["w"], c["conv"] = [T0, None, None], [None, None, T0 + 4], i % 3
             cases.append(c)
+        bex = [NUM0, SLEEP4, RAISE, ["braise", 0], ["braise", 3], ["again", -6, True], ["again", -7, False]]
+        for i, c in enumerate(scope(bex, 3, 1, label="exception classes")):                                         # 8^3
+            c["conv"] = i % 6; cases.append(c)
+        for i, c in enumerate(scope([NUM0, SLEEP4, ["braise", 1], ["again", -6, True]], 2, 2, label="exception classes 2x2")):     # 21^2
+            c["conv"] = i % 5; cases.append(c)
+        dt = [[4, True, True, 2, "rel"], [4, False, True, None, "rel"]]
+        for i, c in enumerate(scope([SLEEP4, ["sleep", 8], ["tstart", 0], ["tstart", 1], ["cancel", 0]], 2, 2, timers=dt, label="deferred timers")):   # 31^2
+            c["conv"] = i % 4; cases.append(c)
         for i, c in enumerate(scope([NUM0, SEL_R1, ["select", [1], [], [], 4]], 2, 1, label="hidden state")):       # each followed by the canary
             for cv in (0, 9): d = dict(c); d["conv"] = cv; cases.append(d)
         # threaded select hub (forced thread scheduler)
@@ -1053,10 +1140,22 @@ class C06(Check):
         if case.get("mode") == "threaded" and not schedule_independent(case):
             return None                                             # more than one legal outcome: the oracle alone judges
         if case.get("cbacts"): return None                          # callbacks that act on timers are not modelled: the oracle alone judges
+        if any(len(t) > 4 and t[4] for t in case["timers"]): return None      # nor are timers started later by a task (`tstart`)
         r = {k: v for k, v in case.items() if k not in ("label", "_iso", "mode", "sched", "conv", "cbacts")}
         r.setdefault("prios", []); r.setdefault("draws", [])
-        if any(y[0] == "badop" for p in r["progs"] for y in p):     # an operation whose execute() raises = the task is never scheduled again
-            r["progs"] = [[(["sleep", None] if y[0] == "badop" else y) for y in p] for p in r["progs"]]
+        if any(y[0] in ("badop", "braise", "tstart") for p in r["progs"] for y in p):
+            # an operation whose execute() raises = the task is never scheduled again.  A BaseException that is not an Exception: a
+            # top-level task dies like from any exception; in a sub-task AgainTask does not forward it (it catches Exception), so the
+            # wrapper dies and the caller stays blocked - for the model: the sub-task is never scheduled again
+            called = set(y[1] for p in r["progs"] for y in p if y[0] == "again")
+            if any(k in called for k in r["tasks"]) and any(y[0] == "braise" for p in r["progs"] for y in p): return None
+            def m(k, y):
+                if y[0] == "badop": return ["sleep", None]
+                if y[0] == "braise": return ["sleep", None] if k in called else ["raise", 1]
+                if y[0] == "tstart": return ["num", 0]                 # no deferred timer in this case: a no-op
+                return y
+            r["progs"] = [[m(k, y) for y in p] for k, p in enumerate(r["progs"])]
+        r["timers"] = [list(t[:4]) for t in r["timers"]]
         r.update(REPAIRED)
         return r
 
@@ -1168,7 +1267,10 @@ def oracle(chk, case, o):
             if (not hasfds or e[6] == TIMEOUT) and e[3] < w:        # e[6]: what the hub put into task.rv (also for Recv/Send)
                 return "early-wake | task %d step %d resumed at %d, wake time %d" % (e[1], e[2], e[3], w)
     # 3. only the task's own exceptions may deschedule it
-    internal = [x for x in o["excs"] if x not in ("E", "RuntimeError", "StopIteration")]
+    allowed = set(OWN_EXC_NAMES)
+    if any(y[0] in ("braise", "badop") for p in case["progs"] for y in p) or any(a[2] == "raise" for a in case.get("cbacts", ())):
+        allowed |= BASE_EXC_NAMES
+    internal = [x for x in o["excs"] if x not in allowed]
     pending_send = any(len(evs) and evs[-1][1][2] < len(tab[tid][0]) and tab[tid][0][evs[-1][1][2]][0] == "send" for tid, evs in steps.items())
     if "NameError" in internal and pending_send:
         return "send:zero-bytes:NameError | Send wrote 0 bytes: the task was killed by a NameError inside recoco"
@@ -1187,7 +1289,7 @@ def oracle(chk, case, o):
         if y[0] == "raise": return ["exc", "E%d" % y[1]]
         if y[0] == "num": return ["num", y[1]]
         if y[0] == "block": return ["false"]
-        if y[0] == "cancel": return ["num", 0]
+        if y[0] in ("cancel", "tstart"): return ["num", 0]
         return None
     for tid, k, ptid, pidx in o["subs"]:
         out = outcome(tid)
@@ -1242,18 +1344,27 @@ def oracle(chk, case, o):
             elif (y[0] in ("sleep", "sleepabs") and y[1] is not None) or (y[0] == "num" and y[1] > 0):
                 if not (r == TIMEOUT or (r is None and y[0] != "num")):
                     return "sleep:wrong-result | task %d resumed from %s with %s" % (tid, y, r)
-            elif y[0] in ("num", "cancel"):
+            elif y[0] in ("num", "cancel", "tstart"):
                 if r is not None and tab[tid][1] is None:
                     return "yield0:wrong-result | task %d resumed from %s with %s" % (tid, y, r)
-            elif y[0] in ("block", "exit", "badop") or y == ["sleep", None]:
+            elif y[0] in ("block", "exit", "badop", "braise", "raise") or y == ["sleep", None]:
                 return "resumed-from-block | task %d was resumed after %s" % (tid, y)
     # 5. timers
-    for j, (delay, recurring, selfstop, false_at) in enumerate(case["timers"]):
+    for j, spec in enumerate(case["timers"]):
+        delay, recurring, selfstop, false_at = spec[:4]
+        defer = spec[4] if len(spec) > 4 else None
         tt = ntop + j
         fires = [(p, e) for p, e in enumerate(trace) if e[0] == "f" and e[1] == tt]
         if [e[2] for _, e in fires] != list(range(len(fires))): return "timer:count | timer %d firing numbers %s" % (j, [e[2] for _, e in fires])
         if not recurring and len(fires) > 1: return "timer:one-shot-twice | one-shot timer %d fired %d times" % (j, len(fires))
         due = case["t0"] + delay
+        started = [(p, tm_) for p, k, tm_ in o.get("tstarts", ()) if k == j]
+        if defer:                                                  # the requested time is measured from start()
+            if not started:
+                if fires: return "timer:before-start | timer %d fired although it was never started" % j
+                continue
+            if fires and fires[0][0] < started[0][0]: return "timer:before-start | timer %d fired before start()" % j
+            if defer == "rel": due = started[0][1] + delay
         for n, (p, e) in enumerate(fires):
             if e[3] < due: return "timer:early | timer %d firing %d at %d, due %d" % (j, n, e[3], due)
             due = e[3] + delay
@@ -1263,8 +1374,10 @@ def oracle(chk, case, o):
                         and tab[tid][0][e[2] - 1][0] == "again" and not tab[tid][0][e[2] - 1][2])]
         cancels += [p for p, k in o.get("cbcancel", ()) if k == j]
         if cancels and fires and fires[-1][0] >= min(cancels): return "timer:after-cancel | timer %d fired after cancel()" % j
-        targeted = any(y == ["cancel", j] for p in case["progs"] for y in p) or any(a[3] == j for a in case.get("cbacts", ()))
-        stopped = selfstop and false_at is not None and len(fires) > false_at
+        targeted = any(y == ["cancel", j] for p in case["progs"] for y in p) or any(a[2] == "cancel" and a[3] == j for a in case.get("cbacts", ()))
+        raises = [a[1] for a in case.get("cbacts", ()) if a[0] == j and a[2] == "raise"]
+        if raises and len(fires) > min(raises) + 1: return "timer:after-raise | timer %d fired again after its callback raised" % j
+        stopped = (selfstop and false_at is not None and len(fires) > false_at) or (raises and len(fires) > min(raises))
         if recurring and not targeted and not stopped and tt not in o["ready"] + o["hub"] + o["incoming"]:
             return "timer:stopped-early | recurring timer %d is no longer scheduled after %d firings" % (j, len(fires))
     # 6. round-robin fairness of the ready deque (inline hub: nothing can overtake a task that yielded 0, except sub-task call/return)
@@ -1296,25 +1409,26 @@ def oracle(chk, case, o):
             if i == len(prog): continue
             if i > 0 and prog[i - 1][0] == "again" and not prog[i - 1][2] and last[4] is not None and last[4][0] == "exc": continue
             y = prog[i]
-            may_block = (y[0] in ("block", "raise", "exit", "badop") or y == ["sleep", None]
+            may_block = (y[0] in ("block", "raise", "braise", "exit", "badop") or y == ["sleep", None]
                          or (y[0] == "select" and y[4] is None and never(y[1], "r") and never(y[2], "w") and never(y[3], "x"))
                          or (y[0] == "recv" and y[2] is None and never([y[1]], "r") and never([y[1]], "x"))
                          or (y[0] == "send" and y[3] is None and never([y[1]], "w") and never([y[1]], "x"))
                          or (y[0] == "again" and (tid, i) in child_of and outcome(child_of[(tid, i)]) is None)
-                         or (ptid is not None and y[0] in ("num", "cancel")))          # plain yield in a sub-task = return (checked in 4)
+                         or (ptid is not None and y[0] in ("num", "cancel", "tstart")))          # plain yield in a sub-task = return (checked in 4)
             if not may_block:
                 return "lost-wakeup:%s | task %d is still waiting on %s although nothing else can happen" % (y[0], tid, y)
-        for j, (delay, recurring, selfstop, false_at) in enumerate(case["timers"]):
+        for j, spec in enumerate(case["timers"]):
             fired = sum(1 for e in trace if e[0] == "f" and e[1] == ntop + j)
-            cancelled = any(y == ["cancel", j] for p in case["progs"] for y in p) or any(a[3] == j for a in case.get("cbacts", ()))
+            cancelled = any(y == ["cancel", j] for p in case["progs"] for y in p) or any(a[2] == "cancel" and a[3] == j for a in case.get("cbacts", ()))
+            if len(spec) > 4 and spec[4] and not any(k == j for _, k, _ in o.get("tstarts", ())): continue      # never started
             if not cancelled and fired == 0: return "timer:never | timer %d never fired" % j
     # 8. isolation: replacing a top-level `raise` by `yield False` must not change anybody's trace
     raised = [(tid, e[2]) for tid, evs in steps.items() if tab[tid][1] is None for _, e in evs
-              if e[2] < len(tab[tid][0]) and tab[tid][0][e[2]][0] == "raise"]
+              if e[2] < len(tab[tid][0]) and tab[tid][0][e[2]][0] in ("raise", "braise")]
     if raised and not case.get("_iso"):
         c2 = dict(case); c2["_iso"] = True
         ks = set(case["tasks"][tid] for tid, _ in raised)
-        c2["progs"] = [[(["block"] if (k in ks and y[0] == "raise") else y) for y in p] for k, p in enumerate(case["progs"])]
+        c2["progs"] = [[(["block"] if (k in ks and y[0] in ("raise", "braise")) else y) for y in p] for k, p in enumerate(case["progs"])]
         if case.get("mode") == "threaded":                          # same schedule; compare what each task saw
             o2 = ThreadedRun(chk.rc, c2).go()
             if per_task_view(case, o2["trace"], o2["subs"]) != per_task_view(case, o["trace"], o["subs"]):
